@@ -30,11 +30,43 @@ def gen_case(rng):
       r['_decorated'] = rng.choice([1, 1, 2, 3])
     if r['_kind'] in ('init', 'new') and rng.random() < 0.4:
       r['_mixin'] = True   # a base class defines the *other* constructor with *args/**kwargs: it is not the one that counts
+  scopes_early = [[], ['a']]
   ops = list(regs)
+  if rng.random() < 0.35:
+    # registrations refused *after* their signature was looked at (a list naming a non-parameter), right before the
+    # real ones: nothing of them may linger (their function objects are gone by then)
+    doomed = []
+    for j in range(rng.randint(1, 3)):
+      d = G.gen_late_register(rng, 80 + j)
+      d['sig'] = {'pos': [['alpha', None], ['beta', {'v': 1}]][:rng.randint(1, 2)], 'kwonly': [], 'varargs': False,
+                  'varkw': rng.random() < 0.3}
+      if rng.random() < 0.5:
+        d.update(allow=['nope'], deny=[])
+      else:
+        d.update(allow=[], deny=['nope'])
+      if d['sig']['varkw']:
+        d.update(allow=['alpha'], deny=['alpha'])
+      doomed.append(d)
+    ops = doomed + ops
   bindable = list(regs)
   if rng.random() < 0.35:
     mop, cop = G.gen_class_with_method(rng, len(regs), module=rng.choice(['m', 'k']))
-    ops += [mop, cop]
+    if rng.random() < 0.4 and not cop.get('_inherited'):
+      # the method is bound under its bare name while it is still a free-standing function; once its class is
+      # registered the bare name is gone, whatever was resolved before
+      import copy
+      cop['_split'] = True
+      mop['_split_class'] = copy.deepcopy(cop)
+      early = dict(mop, _selector=mop['module'] + '.' + mop['name'])
+      ops.append(mop)
+      for _ in range(rng.randint(1, 3)):
+        ops.append(G.gen_bind_attempt(rng, [early], scopes_early))
+      ops.append(cop)
+      for _ in range(rng.randint(1, 2)):   # the spellings without the class are no names of anything any more
+        ops.append(G.gen_bind_attempt(rng, [early], scopes_early))
+        ops.append({'op': 'config'})
+    else:
+      ops += [mop, cop]
     bindable.append(mop)
   scopes = [[], ['a'], ['a', 'b'], ['c']]
   n = rng.randint(6, 14)
